@@ -139,3 +139,54 @@ vharness! {
         assert!(false, "VERIF_MARKER: schedule returned from a deadlocked state");
     }
 }
+
+// ------------------------------------------------------------ C16: reset between iterations
+
+vharness! {
+    /// @prop C16 @tier quick @mode fast @cost 3 @timeout 3600 @funcs Execution::step,Path::step,Store::clear,Set::clear,lazy_static::Set::reset @bounds execution dirtied with 3 threads (symbolic clocks and states), a symbolic SC-fence view, one object, one decision with an unexplored alternative
+    /// Execution::step hands the next iteration the initial state: one main thread, zero clocks, zero SC-fence view, empty object store and registries, cursor at the start of the retained path, a fresh execution id; configuration (max_threads, location, log) is preserved.
+    #[cfg_attr(kani, kani::unwind(8))]
+    fn execution_step_resets() {
+        let mut e = mk_exec(3, 2, None);
+        tv::havoc_clocks(&mut e.threads, 3);
+        let sc: [u16; MAX_THREADS] = kani::any();
+        e.threads.seq_cst_causality = vv(sc);
+        let mut t = 0;
+        while t < 3 {
+            let c: u8 = kani::any();
+            kani::assume(c <= 4);
+            tv::th(&mut e.threads, t).state = tv::state_from_code(c);
+            t += 1;
+        }
+        tv::deactivate(&mut e.threads);
+        e.objects.insert(crate::rt::mutex::verif::mk_unlocked());
+        crate::rt::path::verif::seed_spurious_false_traversed(&mut e.path);
+        let loc: bool = kani::any();
+        let log: bool = kani::any();
+        e.location = loc;
+        e.log = log;
+        // the model closure drops the lazy statics at the end of every iteration
+        std::mem::forget(e.lazy_statics.drop());
+        let old_id = e.id;
+        let next = e.step();
+        assert!(next.is_some());
+        let n = next.unwrap();
+        assert!(n.id != old_id);
+        assert!(n.threads.execution_id() == n.id);
+        assert!(tv::len(&n.threads) == 1);
+        assert!(tv::active_index(&n.threads) == Some(0));
+        let zero = [0u16; MAX_THREADS];
+        assert!(vv_raw(&n.threads.seq_cst_causality) == zero);
+        let th = tv::th_ref(&n.threads, 0);
+        assert!(tv::state_code(&th.state) == 0);
+        assert!(vv_raw(&th.causality) == zero && vv_raw(&th.released) == zero && vv_raw(&th.dpor_vv) == zero);
+        assert!(th.last_yield.is_none() && th.yield_count == 0 && th.operation.is_none());
+        assert!(n.objects.len() == 0);
+        assert!(n.raw_allocations.is_empty() && n.arc_objs.is_empty());
+        assert!(n.path.pos() == 0);
+        assert!(n.max_threads == 3 && n.max_history == 7);
+        assert!(n.location == loc && n.log == log);
+        kani::cover!(sc != zero, "SC-fence view was advanced in the previous iteration");
+        std::mem::forget(n);
+    }
+}
